@@ -1,4 +1,4 @@
-CONSTANTS EP = {"e1", "e2", "e3", "e4"}  Strategies = {"strict", "optimistic", "discovery"}  Fallbacks = {"compatible_only", "none", "all"}  Spellings = {"exact"}
+CONSTANTS EP = {"e1", "e2", "e3", "e4"}  Strategies = {"strict", "optimistic", "discovery"}  Fallbacks = {"compatible_only", "none", "all"}  CTypes = {"json"}  Spellings = {"exact"}
 CONSTANT KnownDeviations = ${KnownDeviations}
 SPECIFICATION TraceSpec
 CONSTRAINT HW
